@@ -7,6 +7,7 @@ import (
 	"encoding/json"
 	"fmt"
 	"go/ast"
+	"go/constant"
 	"go/token"
 	"go/types"
 	"os"
@@ -135,6 +136,7 @@ func (c *Ctx) Load(patterns ...string) {
 			for _, e := range p.Errors {
 				Fatal("type/parse error in %s: %v", p.PkgPath, e)
 			}
+			lowerRangeInt(p)
 			normalizeComparisons(p)
 		}
 	})
@@ -627,3 +629,90 @@ func normalizeComparisons(p *packages.Package) {
 }
 
 var normalized = map[*packages.Package]bool{}
+
+// lowerRangeInt rewrites `for i := range N` over an integer N (Go 1.22) into the
+// classic `for i := 0; i < N; i++` in the syntax tree, with the type information the
+// SSA builder needs for the new nodes. `go fix` offers the opposite rewrite, so both
+// spellings occur; the rules know the classic one.
+func lowerRangeInt(p *packages.Package) {
+	info := p.TypesInfo
+	if info == nil {
+		return
+	}
+	counter := 0
+	lower := func(rs *ast.RangeStmt) ast.Stmt {
+		if rs.Value != nil || rs.Tok == token.ASSIGN {
+			return nil
+		}
+		tv, ok := info.Types[rs.X]
+		if !ok || tv.Type == nil {
+			return nil
+		}
+		bt, isB := tv.Type.Underlying().(*types.Basic)
+		if !isB || bt.Info()&types.IsInteger == 0 {
+			return nil
+		}
+		var iv *ast.Ident
+		var obj types.Object
+		if id, ok := rs.Key.(*ast.Ident); ok && id.Name != "_" {
+			iv = id
+			obj = info.Defs[id]
+		}
+		if obj == nil {
+			counter++
+			iv = &ast.Ident{NamePos: rs.For, Name: fmt.Sprintf("ri%d·", counter)}
+			t := tv.Type
+			if bt.Info()&types.IsUntyped != 0 {
+				t = types.Typ[types.Int]
+			}
+			obj = types.NewVar(rs.For, p.Types, iv.Name, t)
+			info.Defs[iv] = obj
+		}
+		zero := &ast.BasicLit{ValuePos: rs.For, Kind: token.INT, Value: "0"}
+		info.Types[zero] = types.TypeAndValue{Type: obj.Type(), Value: constant.MakeInt64(0)}
+		use1 := &ast.Ident{NamePos: rs.For, Name: iv.Name}
+		use2 := &ast.Ident{NamePos: rs.For, Name: iv.Name}
+		info.Uses[use1], info.Uses[use2] = obj, obj
+		info.Types[use1] = types.TypeAndValue{Type: obj.Type()}
+		info.Types[use2] = types.TypeAndValue{Type: obj.Type()}
+		cond := &ast.BinaryExpr{X: use1, OpPos: rs.For, Op: token.LSS, Y: rs.X}
+		info.Types[cond] = types.TypeAndValue{Type: types.Typ[types.UntypedBool]}
+		return &ast.ForStmt{
+			For:  rs.For,
+			Init: &ast.AssignStmt{Lhs: []ast.Expr{iv}, TokPos: rs.For, Tok: token.DEFINE, Rhs: []ast.Expr{zero}},
+			Cond: cond,
+			Post: &ast.IncDecStmt{X: use2, TokPos: rs.For, Tok: token.INC},
+			Body: rs.Body,
+		}
+	}
+	fix := func(list []ast.Stmt) {
+		for i, st := range list {
+			if ls, ok := st.(*ast.LabeledStmt); ok {
+				if rs, ok := ls.Stmt.(*ast.RangeStmt); ok {
+					if f := lower(rs); f != nil {
+						ls.Stmt = f
+					}
+				}
+				continue
+			}
+			if rs, ok := st.(*ast.RangeStmt); ok {
+				if f := lower(rs); f != nil {
+					list[i] = f
+				}
+			}
+		}
+	}
+	for _, f := range p.Syntax {
+		ast.Inspect(f, func(n ast.Node) bool {
+			switch t := n.(type) {
+			case *ast.BlockStmt:
+				fix(t.List)
+			case *ast.CaseClause:
+				fix(t.Body)
+			case *ast.CommClause:
+				fix(t.Body)
+			}
+			return true
+		})
+	}
+}
